@@ -223,6 +223,15 @@ fn stress<const D: usize>(c: &Value) -> Value {
 }
 
 pub fn run(input: &Value) -> Value {
+    if input["stress"].as_bool().unwrap_or(false) || input["parallel_cases"].as_bool().unwrap_or(false) {
+        // the concurrent passes are a search, not the deciding argument: on a machine where they do not finish, give up (exit 75)
+        let limit = input["watchdog_s"].as_u64().unwrap_or(300);
+        let _ = std::thread::Builder::new().spawn(move || {
+            std::thread::sleep(std::time::Duration::from_secs(limit));
+            eprintln!("failed to finish the concurrent pass within {limit} s");
+            std::process::exit(75);
+        });
+    }
     if input["stress"].as_bool().unwrap_or(false) {
         let n = input["cases"].as_array().unwrap().len();
         *STRESS_BARRIER.lock().unwrap() = Some(Arc::new(Barrier::new(n)));
